@@ -41,6 +41,9 @@ def _sidecar(draw):
         # a long sidecar: 9-19 KB, still inside the documented first 20 KB
         n = draw(st.integers(110, 230))
         return {"lines": ["line %04d of a long sidecar file %s" % (i, "x" * 50) for i in range(n)], "final_nl": draw(st.booleans())}
+    if draw(st.integers(0, 9)) == 0:
+        # an empty sidecar file (zero bytes, or one blank line)
+        return {"lines": [], "final_nl": draw(st.booleans())}
     lines = draw(st.lists(st.one_of(line_st, line_st, st.just("")), min_size=1, max_size=10))
     while lines and lines[-1] == "":
         lines.pop()
